@@ -11,13 +11,13 @@ CHECKS = {
          "Exploration over histories on cyclic / mutually recursive generated graphs: every id handed out is walked through every reference and each entry is compared with (1) what the harness spec says the type is and (2) the type's own type_info().",
          "Trusted: vtypes::desc (the harness's statement of what each built-in constructor and each programmed node must look like). PhantomData's own docs not asserted.", "2/C02"),
  "C03": ("generated-program PBT: derive inputs (TypeInfo + Encode) x entropy-driven values, each program compiled by rustc against the current tree and run; oracle = schema-directed SCALE decoder over the registry vs the value's model (proptest, AST shrinking)",
-         "Exploration over programs: ~1200 (quick) / 30000 (thorough) generated programs of 1-3 definitions each with 12 values per root type. A compile failure is judged by the twin program without the TypeInfo derive.",
+         "Exploration over programs: ~1200 (quick) / 30000 (thorough) generated programs of 1-3 definitions each with 12 values per root type. A compile failure is judged by the twin program without the TypeInfo derive. Members routed through macro_rules type fragments may carry any attribute (compact, encoded_as, skip, rename).",
          "Trusted: rustc; the codec derive 3.7.5 index rule; harness/vprog/src/dec.rs (decoder) and harness/vsupport (value models). Bounded by how many programs can be compiled.", "2/C03"),
  "C04": ("generated-program PBT: type expressions over all built-in constructors x values; oracle = schema-directed decoder vs model; shape check for char and 19/20-tuples (proptest)",
-         "Exploration: generated nests (depth <= 3) over every built-in constructor family incl. all Compact/NonZero widths, BitVec store x order pairs, tuples up to 20, PhantomData positions.",
+         "Exploration: generated nests (depth <= 3) over every built-in constructor family incl. all Compact/NonZero widths, BitVec store x order pairs, tuples up to 20, PhantomData positions. Programs contain alias twins (Vec<T> next to Vec<Box<T>> etc.) followed by further types; the decoder resolves ids by position as PortableRegistry::resolve does.",
          "Trusted: value generators/models for std types in harness/vsupport.", "2/C04"),
  "C09": ("generated-program PBT across two feature configurations (docs on/off): derive output vs expectation computed from the generator's AST (proptest)",
-         "Exploration: ~700 programs per docs setting (quick), definitions with all attribute combinations, doc-comment forms, raw identifiers, lifetimes, macro_rules field types, whitespace-perturbed types.",
+         "Exploration: ~700 programs per docs setting (quick), definitions with all attribute combinations, doc-comment forms, raw identifiers, lifetimes, macro_rules field types, whitespace-perturbed types. Rename targets include non-identifier strings (keywords, dashes, blanks, empty, raw prefix, non-ASCII, quotes).",
          "Type names compared after deleting all whitespace; block/inner docs and chained replacement rules not generated.", "2/C09"),
  "C17": ("generated-program PBT: builder call chains (compile-time and portable form, permuted setter orders) under docs on/off, plus PhantomData-erasure scan of registries from generated definitions and built-in expressions (proptest)",
          "Exploration: ~1800 builder chains and ~1000 PhantomData programs per quick run; built Type compared part by part with what was supplied.",
@@ -29,7 +29,7 @@ CHECKS = {
          "Exploration: every prefix of every generated history is compared with the next state; the whole history is replayed twice; the roots are re-registered in a generated order and the two registries must be isomorphic under the root-induced renaming.",
          "Cross-process reproducibility is observed by C15's fingerprints, not here.", "2/C11"),
  "C15": ("differential PBT across feature configurations: generated corpus programs compiled and run against scale-info built under 6 (quick) / 48 (thorough) feature sets; byte-equality of registry fingerprints (proptest over programs)",
-         "Exploration over (program, feature-set pair): 160 programs x 15 pairs (quick); every distinct feature set in the thorough tier. Docs on/off compared modulo documentation strings.",
+         "Exploration over (program, feature-set pair): 160 programs x 15 pairs (quick); every distinct feature set in the thorough tier. Docs on/off compared modulo documentation strings. Programs may carry two replace_segment rules for one search key (only equality across feature sets is asserted).",
          "Host builds only (no Wasm target in the image); the derive feature is always on.", "2/C15"),
  "C16": ("PBT over triples of types: ==, cmp, hash, type_id against the independently computed declared identity TypeId::of::<T::Identity>(), plus coherence of definitions (proptest)",
          "Exploration over triples drawn from 72 shapes x 16 nodes (with aliases and nested wrappers) under generated specs: equality/order/hash laws and 'same declared identity => equal type_info()'.",
@@ -53,7 +53,7 @@ CHECKS = {
          "Exploration: ~1500 (quick) / 40000 (thorough) generated generic definitions covering parameter roles, lifetimes (incl. bounded), const parameters, defaults, inline/where bounds, skip_type_params and explicit bounds.",
          "rustc's trait solver is trusted; ?Sized parameters and mutually recursive generics without bounds(..) are outside the stated grammar.", "2/C13"),
  "C20": ("generated negative programs with positive twins, compiled one by one with rustc --emit=metadata; diagnostics classified by error code (proptest over the negative grammar)",
-         "Exploration of the negative grammar (13 defect families x positions x forms x surrounding setters, a few hundred distinct programs): each negative must be rejected for the defect (twin compiles, no typo-class error), builder negatives by a type error, derive negatives additionally leaving no impl.",
+         "Exploration of the negative grammar (13 defect families x positions x forms x surrounding setters, a few hundred distinct programs): each negative must be rejected for the defect (twin compiles, no typo-class error), builder negatives by a type error, derive negatives additionally leaving no impl. The unbound parameter of a generated bounds negative may be used only by a codec(skip) member or a self-referential member type.",
          "Error wording is not matched; rustc error codes are trusted.", "2/C20"),
  "C14": ("fuzz-style PBT with fault injection: arbitrary and systematically corrupted SCALE bytes / JSON under catch_unwind and a counting allocator (proptest); libFuzzer targets scale_decode, json_decode in thorough",
          "Exploration + per-case fault enumeration (every truncation, every bit flip and every compact replacement of small valid encodings). Checks no panic/abort, linear memory envelope, canonical re-encode, total resolve.",
